@@ -17,12 +17,51 @@ from concurrent.futures import ProcessPoolExecutor
 import lib
 from rstparse import Page
 
-CMAKE_BODY = "#[[[\n# doc of {name}\n#]]\nfunction(f_{ident} a)\nendfunction()\n"
+# (the second doc line holds characters some line-splitting functions take for line ends: form feed, U+2028, U+0085)
+CMAKE_BODY = "#[[[\n# doc of {name}\n# form\x0cfeed, line\u2028separator, next\x85line\n#]]\nfunction(f_{ident} a)\nendfunction()\n"
+# files that are listed early in their directory take keyword arguments: same parameter list as the others, plus **kwargs
+CMAKE_BODY_KW = "#[[[\n# doc of {name}\n# form\x0cfeed, line\u2028separator, next\x85line\n#]]\nfunction(f_{ident} a)\n  cmake_parse_arguments(p \"\" \"\" \"\" ${{ARGN}})\nendfunction()\n"
+KWARGS_FILES = {"Y.CMAKE", ".h.cmake", "x-y.cmake"}
+# a file that begins with a named '@module' doccomment (title and module name come from it)
+MODULE_FILES = {"x.d.cmake"}
+MODULE_HEAD = "#[[[ @module mod_{ident}\n# about the module\n#]]\n"
+SOLO = {}     # per worker process, captured before any directory run: the page body of a file documented on its own
+
+
+def body_of(text):
+    """what a page shows apart from the path-derived title and module name: everything after the module directive line"""
+    parts = text.split(".. module::", 1)
+    return parts[1].split("\n", 1)[1] if len(parts) == 2 and "\n" in parts[1] else None
+
+
+def capture_solo():
+    import agg
+    for kw in (False, True):
+        src = (CMAKE_BODY_KW if kw else CMAKE_BODY).format(name="@NAME@", ident="@IDENT@")
+        status, text, _, _ = agg.run_real(src, agg.make_settings())
+        SOLO[kw] = body_of(text) if status == "ok" else None
+    status, text, _, _ = agg.run_real((MODULE_HEAD + CMAKE_BODY).format(name="@NAME@", ident="@IDENT@"), agg.make_settings())
+    SOLO["mod"] = body_of(text) if status == "ok" else None
+    status, text, _, _ = agg.run_real("# nothing to document here\ninclude(other_module)\n", agg.make_settings())
+    SOLO["empty"] = body_of(text) if status == "ok" else None
 
 
 def rmtree(path):
     import subprocess
     subprocess.run(["rm", "-rf", path], check=False)
+
+
+# a page left by an earlier run: longer than anything this run writes (a writer that does not truncate leaves its tail)
+STALE = "stale page from an earlier run\n" + "stale line of the earlier, longer page\n" * 400
+
+
+NOTHING_TO_DOCUMENT = {"z.cmake"}
+
+
+def subst_pat(p, inp):
+    """pattern text of the specification -> concrete pattern: '@' is the absolute input directory, '%P' the name of the
+    directory two levels above it (so that '**/%P/*' excludes everything below that ancestor, the input included)"""
+    return p.replace("@", inp).replace("%P", os.path.basename(os.path.dirname(os.path.dirname(os.path.abspath(inp)))))
 
 
 def ident(name):
@@ -38,9 +77,16 @@ def materialise(tree, root):
                 with open(os.path.join(d, f), "wb") as fh:
                     fh.write(b"# caf\xe9 in Latin-1\nfunction(f_latin)\nendfunction()\n")
                 continue
-            with open(os.path.join(d, f), "w") as fh:
+            if f in NOTHING_TO_DOCUMENT:
+                # a module that only includes others: its page holds the title and the module directive, nothing else
+                with open(os.path.join(d, f), "w") as fh:
+                    fh.write("# nothing to document here\ninclude(other_module)\n")
+                continue
+            with open(os.path.join(d, f), "w", encoding="utf-8", newline="") as fh:
                 # the function name identifies the file (by its relative path) in whatever page it ends up in
-                fh.write(CMAKE_BODY.format(name=f, ident=ident("/".join(node["path"] + [f]))) if f.lower().endswith("cmake") else "text\n")
+                fh.write(((MODULE_HEAD if f in MODULE_FILES else "") + (CMAKE_BODY_KW if f in KWARGS_FILES else CMAKE_BODY))
+                         .format(name=f, ident=ident("/".join(node["path"] + [f])))
+                         if f.lower().endswith("cmake") else "text\n")
 
 
 def documented_from_pages(tree, texts):
@@ -48,9 +94,21 @@ def documented_from_pages(tree, texts):
     cminx.document_single_file sees no call, e.g. after the function was renamed or inlined)"""
     out = []
     blob = "\n".join(texts)
+    titles = set()
+    for t in texts:
+        ls = [l for l in t.split("\n") if l.strip()]
+        for k in range(1, len(ls) - 1):     # over-/underlined lines (stdout carries several pages)
+            if ls[k - 1] == ls[k + 1] and len(set(ls[k - 1])) == 1 and len(ls[k - 1]) == len(ls[k]):
+                titles.add(ls[k])
     for node in tree:
         for f in node["files"]:
             rel = "/".join(node["path"] + [f])
+            if f in NOTHING_TO_DOCUMENT:
+                tail = "/".join(node["path"] + [f[:-len(".cmake")]])
+                # the title ends with the relative path (with or without the extension), after the prefix and separator
+                if any(re.search(r"(^|[^A-Za-z0-9/])" + re.escape(tail) + r"(\.cmake)?$", t) for t in titles):
+                    out.append(rel)
+                continue
             if re.search(r"(?<![A-Za-z0-9_])f_%s\(" % re.escape(ident(rel)), blob):
                 out.append(rel)
     return out
@@ -95,13 +153,19 @@ def run_case(beh, sandbox, prefix_arg=None, extra_rst=None, capture_effects=True
         outdir = os.path.join(sandbox, "out")
     elif kind in ("top", "sub"):
         outdir = os.path.join(inp, *cfg["out"]["path"])
-    pats = [p.replace("@", inp) for p in cfg["pats"]]
+    pats = [subst_pat(p, inp) for p in cfg["pats"]]
     settings = Settings(input=InputSettings(recursive=cfg["recursive"], exclude_filters=pats,
                                             auto_exclude_directories_without_cmake=cfg["auto"]),
                         output=OutputSettings(directory=outdir),
                         rst=RSTSettings(module_path_separator=cfg["sep"], prefix=prefix_arg, **(extra_rst or {})))
     listings = {"/".join(l["dir"]): l for l in beh.get("listings", [])}
     os.makedirs(os.path.join(sandbox, "home", ".config", "cminx"), exist_ok=True)
+    if kind == "outside" and len(beh["tree"]) % 2 == 0:
+        # the output directory holds the (longer) pages of an earlier run: this run's pages replace them completely
+        os.makedirs(outdir)
+        for f in ("x.rst", "index.rst"):
+            with open(os.path.join(outdir, f), "w") as fh:
+                fh.write(STALE)
     before = snapshot(sandbox)
     obs = {"walk_roots": [], "unlisted": [], "docs": [], "scandirs": [], "exc": None}
     real_walk, real_scandir, real_dsf = os.walk, os.scandir, cminx.document_single_file
@@ -179,7 +243,8 @@ def run_case(beh, sandbox, prefix_arg=None, extra_rst=None, capture_effects=True
     after = snapshot(sandbox)
     obs["stdout"] = stdout.getvalue()
     obs["docs_wrapper_seen"] = bool(obs["docs"])
-    created = {p: after[p] for p in after if p not in before}
+    # (the settings file and the home directory of the command-line route are the harness's own)
+    created = {p: after[p] for p in after if p not in before and p != "s.yaml" and not (p + "/").startswith("home/")}
     changed = [p for p in before if p in after and before[p] != after[p]]
     deleted = [p for p in before if p not in after]
     obs["changed"], obs["deleted"] = changed, deleted
@@ -188,6 +253,9 @@ def run_case(beh, sandbox, prefix_arg=None, extra_rst=None, capture_effects=True
         orel = os.path.relpath(outdir, sandbox)
         under = {os.path.relpath(p, orel): created[p] for p in created
                  if (p + "/").startswith(orel + "/") and not p.endswith("/")}
+        # (pages that replaced a file of an earlier run count as written by this run)
+        under.update({os.path.relpath(p, orel): after[p] for p in changed
+                      if (p + "/").startswith(orel + "/") and not p.endswith("/") and after[p] is not None})
         obs["outside_out"] = sorted(p for p in created if not (p.rstrip("/") + "/").startswith(orel + "/")
                                     and not (orel + "/").startswith(p))
         obs["out_files"] = sorted(under)
@@ -201,6 +269,20 @@ def run_case(beh, sandbox, prefix_arg=None, extra_rst=None, capture_effects=True
                     obs["indexes"][os.path.dirname(p)] = {"error": repr(e)}
             else:
                 obs["pages"][p] = data.decode("utf-8", "replace")
+        # C13, second sentence: a page's content is what CMinx produces for that file on its own
+        diff = []
+        for d, f in beh["ideal"]["files"]:
+            rel = os.path.join(*(d + [".".join(f.split(".")[:-1]) + ".rst"]))
+            if rel not in obs["pages"] or f == "l1.cmake":
+                continue
+            tmpl = SOLO.get("empty") if f in NOTHING_TO_DOCUMENT else SOLO.get("mod") if f in MODULE_FILES else SOLO.get(f in KWARGS_FILES)
+            if tmpl is None:
+                continue
+            want = tmpl.replace("@NAME@", f).replace("@IDENT@", ident("/".join(d + [f])))
+            got = body_of(obs["pages"][rel])
+            if got != want:
+                diff.append([rel, want, got])
+        obs["content_diff"] = diff[:3]
     else:
         obs["outside_out"] = sorted(created)
         obs["out_files"] = []
@@ -278,6 +360,9 @@ def judge(pid, beh, obs):
             exp = expected_out_files(beh)
             if obs["out_files"] != exp:
                 return "viol", exp, obs["out_files"], "files under the output directory are not exactly one page per processed file plus one index per processed directory"
+            if obs.get("content_diff"):
+                rel, want, got = obs["content_diff"][0]
+                return "viol", {rel: want}, {rel: got}, "a page's content differs from what CMinx produces for that file on its own"
         else:
             if sorted(obs["docs"]) != ideal_files:
                 return "viol", ideal_files, sorted(obs["docs"]), "files documented (stdout mode) are not exactly the processed files"
@@ -401,6 +486,10 @@ def cfg_has_out(beh):
 def _init(src):
     lib.CMINX_SRC = src
     lib.use_repo_sources()
+    try:
+        capture_solo()
+    except Exception:
+        SOLO.clear()
 
 
 def features(beh):
@@ -412,9 +501,16 @@ def features(beh):
             "n_patterns": len(cfg["pats"]), "has_bare_cmake_file": "cmake" in names}
 
 
+def beh_fields(b):
+    """descriptor of a walk behaviour for covering_sample: tree shape, patterns, options"""
+    c = b["cfg"]
+    return {"tree": json.dumps(b["tree"], sort_keys=True), "pats": "|".join(c["pats"]), "recursive": c["recursive"], "auto": c["auto"],
+            "sep": c["sep"], "out": c["out"]["kind"]}
+
+
 def replay(run, pid, behs, seed, limit=None):
     if limit and len(behs) > limit:
-        behs = random.Random(seed).sample(behs, limit)
+        behs = lib.covering_sample(behs, beh_fields, limit, seed)
     base = tempfile.mkdtemp(prefix="verif_walk_", dir="/dev/shm" if os.path.isdir("/dev/shm") else None)
     try:
         items = list(enumerate(behs))
@@ -525,10 +621,10 @@ def c18_case(beh, sandbox, n):
             for f in ("x.rst", "index.rst", "z.rst"):
                 pth = os.path.join(out, f)
                 with open(pth, "w") as fh:
-                    fh.write("stale page from an earlier run\n")
+                    fh.write(STALE)
                 os.utime(pth, (4102444800, 4102444800))
         s = {"input": {"recursive": cfg["recursive"], "auto_exclude_directories_without_cmake": cfg["auto"],
-                       "exclude_filters": [p.replace("@", inp) for p in cfg["pats"]]},
+                       "exclude_filters": [subst_pat(p, inp) for p in cfg["pats"]]},
              "rst": {}, "logging": yaml.safe_load(open(os.path.join(lib.CMINX_SRC, "cminx", "config_default.yaml")))["logging"]}
         for sec, vals in variant.items():
             s[sec].update(vals)
@@ -560,7 +656,7 @@ def c18_case(beh, sandbox, n):
     bad = [p for p in created + changed if not under(p)] + deleted
     pre_touched = [p for p in changed if os.path.basename(p.rstrip("/")) in ("keep.txt", "keep.rst", "unrelated.rst", "bystander.txt")]
     # a stale page is only "unrelated" if this run has no page of that name
-    stale_left = [p for p in after if after[p] == b"stale page from an earlier run\n" and os.path.basename(p) in ("x.rst", "z.rst", "index.rst")]
+    stale_left = [p for p in after if after[p] == STALE.encode() and os.path.basename(p) in ("x.rst", "z.rst", "index.rst")]
     if bad or pre_touched:
         only_cfg = bool(bad) and not pre_touched and set(bad) <= {"home/.config/", "home/.config/cminx/"}
         return [], {"outside_output_dir_or_deleted": bad, "preexisting_changed": pre_touched, "only_user_config_dir": only_cfg}, \
@@ -572,7 +668,7 @@ def c18_case(beh, sandbox, n):
             if f.endswith(".rst") and f != "index.rst" and not f.endswith("keep.rst") and f != "unrelated.rst":
                 rel = os.path.relpath(os.path.join(r, f), out)
                 txt = open(os.path.join(r, f), encoding="utf-8").read()
-                if txt != "stale page from an earlier run\n":
+                if txt != STALE:
                     pages[rel] = txt
     want_docs = documented_from_pages(beh["tree"], list(pages.values()))
     if oa["docs"] and sorted(oa["docs"]) != sorted(want_docs):
@@ -632,7 +728,7 @@ def _chunk18(args):
 
 def replay_c18(run, behs, seed, limit=None):
     if limit and len(behs) > limit:
-        behs = random.Random(seed).sample(behs, limit)
+        behs = lib.covering_sample(behs, beh_fields, limit, seed)
     base = tempfile.mkdtemp(prefix="verif_c18_", dir="/dev/shm" if os.path.isdir("/dev/shm") else None)
     try:
         items = list(enumerate(behs))
@@ -657,3 +753,63 @@ def replay_c18(run, behs, seed, limit=None):
             run.sample({"tree": b["tree"], "cfg": b["cfg"], "listings": b["listings"]})
     finally:
         rmtree(base)
+
+
+def two_inputs_case(run):
+    """C14's title clause with two directory inputs on one command line: the indexes of the second tree are titled with
+    the second directory's name (nothing of the first run's settings may carry over)."""
+    import naming
+    base = tempfile.mkdtemp(prefix="verif_c14two_", dir="/dev/shm" if os.path.isdir("/dev/shm") else None)
+    try:
+        for top, sub in (("alpha", "na"), ("beta", "nb")):
+            os.makedirs(os.path.join(base, top, sub))
+            for rel in ("m.cmake", sub + "/k.cmake"):
+                with open(os.path.join(base, top, rel), "w") as fh:
+                    fh.write(CMAKE_BODY.format(name=rel, ident=ident(top + "/" + rel)))
+        os.makedirs(os.path.join(base, "home", ".config", "cminx"))
+        for order in (["alpha", "beta"], ["beta", "alpha"]):
+            out = os.path.join(base, "out_" + order[0])
+            exc, _ = naming.run_main(["-r", "-o", out] + order, base, os.path.join(base, "home"))
+            run.count("two-directory-inputs:" + order[0])
+            got = {}
+            for top, sub in (("alpha", "na"), ("beta", "nb")):
+                try:
+                    got[top] = read_index(open(os.path.join(out, sub, "index.rst"), encoding="utf-8").read())["title"]
+                except OSError as e:
+                    got[top] = "missing: %r" % (e,)
+            want = {"alpha": "alpha.na", "beta": "beta.nb"}
+            if exc or got != want:
+                run.violation({"argv": ["-r", "-o", "out"] + order, "features": {"two_directory_inputs": True}}, want,
+                              {"exc": exc, "titles": got}, "an index.rst is not titled with its own input directory's name")
+    finally:
+        import subprocess
+        subprocess.run(["rm", "-rf", base])
+
+
+def script_entry_case(run):
+    """C15 through the packaged entry script (src/main.py, what the built executable runs): patterns that contain glob
+    characters arrive as given, whatever the working directory holds that the pattern would match."""
+    import runsh
+    base = tempfile.mkdtemp(prefix="verif_c15script_", dir="/dev/shm" if os.path.isdir("/dev/shm") else None)
+    try:
+        for rel in ("in/top.cmake", "in/build_tools/t.cmake", "in/lib/build_info.cmake", "in/lib/other.cmake", "build/stamp.txt", "lib0/x.txt"):
+            os.makedirs(os.path.dirname(os.path.join(base, rel)), exist_ok=True)
+            with open(os.path.join(base, rel), "w") as fh:
+                fh.write(CMAKE_BODY.format(name=rel, ident=ident(rel)) if rel.endswith(".cmake") else "x\n")
+        home = os.path.join(base, "home")
+        os.makedirs(os.path.join(home, ".config", "cminx"))
+        for pat, gone in (("build*", ["build_tools/t.rst", "lib/build_info.rst"]), ("lib?", []), ("[l]ib", ["lib/other.rst", "lib/build_info.rst"])):
+            out = os.path.join(base, "out_" + ident(pat))
+            rc, so, se = runsh.run_process(["-r", "-o", out, "-e", pat, "in"], base, home)
+            run.count("script-entry:" + pat)
+            tree = sorted(runsh.read_tree(out)) if os.path.isdir(out) else []
+            allp = ["top.rst", "build_tools/t.rst", "lib/build_info.rst", "lib/other.rst"]
+            want = sorted(p for p in allp if p not in gone)
+            got = sorted(p for p in tree if not p.endswith("index.rst"))
+            if rc != 0 or got != want:
+                run.violation({"argv": ["-r", "-o", "out", "-e", pat, "in"], "cwd_holds": ["build/", "lib0/"], "features": {"entry_script": True}},
+                              want, {"status": rc, "pages": got, "stderr": se[-200:]},
+                              "through the packaged entry script the exclusion pattern does not apply as given")
+    finally:
+        import subprocess
+        subprocess.run(["rm", "-rf", base])
